@@ -18,13 +18,35 @@
 (* rationals), timesteps, dt, and the S4 lag / time / wave-vector range.   *)
 (* Part "exh": d = 2, N = 2, box 6x6, ALL per-step displacements in        *)
 (* {-1,0,1,2}^2 for T = 2 (quick), in {-1,0,2}^2 for T = 3 (thorough).      *)
+(* Part "ext" (scope audit, three kinds of inputs):                        *)
+(*  "tri"  only wrapped coordinates in a constant TRICLINIC cell, d = 2, 3,*)
+(*         EVERY non-zero periodic mask, tilts of both signs, odd cell     *)
+(*         edges (the fractional denominator is odd: no half-cell tie can  *)
+(*         occur) and steps from -4..4, so that fractional displacements   *)
+(*         close to +1/2 and to -1/2 occur (NearHalf counts them);         *)
+(*  "sess" call histories: five or six calls (relaxation with two          *)
+(*         wavenumbers, without / with two different selections, sq4 in    *)
+(*         between, on a slow and a fast object built from the same        *)
+(*         trajectory) in several orders - one DoCall action per call,     *)
+(*         clause InvSession: the result of every call equals DefCall,     *)
+(*         which does not see the history;                                 *)
+(*  "long" long trajectories (T = 40..70 through the loop machine,         *)
+(*         T = 260 with the direct operator RowsAt at selected lags) and   *)
+(*         many particles (N = 150, 300 with T = 2, 3); confined walks     *)
+(*         keep every integer below 2^31.                                  *)
+(* Every case also carries a hashed RENDERING (aux.render): insertion      *)
+(* order of the diameters map (ascending / descending / rotated), absent   *)
+(* species listed or dropped, integer-valued diameters as int, the mask    *)
+(* array flavour (bool / int8 / int64 / strided / Fortran order), dt as    *)
+(* int, an offset of the timestep labels in units of 10^9.  The rendering  *)
+(* is not an argument of any expectation.                                  *)
 (***************************************************************************)
 EXTENDS Relaxation, TLC, Json
 
 CONSTANTS Tier, Part, SEED, SHARD, NSHARDS
 
-VARIABLES c, aux, variant, st
-vars == <<c, aux, variant, st>>
+VARIABLES c, aux, variant, st, ses
+vars == <<c, aux, variant, st, ses>>
 
 M1(x) == (x * 7919 + 10477) % 65521
 Mix2(a, b) == M1((M1(a % 65521) + b) % 65521)
@@ -35,72 +57,109 @@ Cals  == <<"slow", "fast">>
 Boxes2 == << <<4, 4>>, <<8, 8>>, <<12, 12>>, <<8, 4>>, <<6, 6>> >>
 Boxes3 == << <<4, 4, 4>>, <<8, 8, 8>>, <<12, 12, 12>>, <<4, 8, 8>>, <<6, 6, 6>> >>
 StepAlpha == << <<0 - 1, 0, 1, 2>>, <<0 - 1, 0, 0, 1>>, <<0, 0, 0, 1>> >>   \* mixed / small / nearly arrested
-DiaPairs == << << <<1, 1>>, <<1, 1>> >>, << <<1, 1>>, <<2, 1>> >>, << <<2, 1>>, <<1, 1>> >>, << <<3, 2>>, <<1, 1>> >> >>
+\* diameters of species 1, 2, 3 (a species may be absent from the trajectory: Palettes)
+DiaTriples == << << <<1, 1>>, <<1, 1>>, <<1, 1>> >>, << <<1, 1>>, <<2, 1>>, <<3, 2>> >>, << <<2, 1>>, <<1, 1>>, <<1, 2>> >>,
+                 << <<3, 2>>, <<1, 1>>, <<2, 1>> >>, << <<1, 1>>, <<3, 2>>, <<2, 1>> >> >>
+Palettes == << <<1, 2>>, <<1, 2>>, <<1, 3>>, <<2, 3>>, <<1, 2, 3>>, <<3>>, <<2, 1>> >>
+Boxes2T == << <<7, 9>>, <<9, 7>>, <<5, 7>>, <<9, 9>> >>             \* odd edges: Det odd, no half-cell tie
+Boxes3T == << <<5, 7, 9>>, <<7, 5, 5>>, <<9, 7, 5>>, <<7, 7, 7>> >>
+WideAlpha == << 0 - 4, 0 - 3, 0 - 2, 0 - 1, 0, 1, 2, 3, 4 >>
+MaskKinds == << "bool", "int8", "bool", "int64", "strided", "fortran" >>
 Afacs == << <<3, 4>>, <<5, 8>>, <<5, 4>> >>
 Qs == << [pi |-> 1, n |-> 2, d |-> 1],     \* the default 2 pi
          [pi |-> 1, n |-> 1, d |-> 1], [pi |-> 1, n |-> 1, d |-> 2], [pi |-> 1, n |-> 3, d |-> 1],
-         [pi |-> 0, n |-> 7, d |-> 2], [pi |-> 0, n |-> 13, d |-> 5], [pi |-> 1, n |-> 3, d |-> 2] >>
+         [pi |-> 0, n |-> 7, d |-> 2], [pi |-> 0, n |-> 13, d |-> 5], [pi |-> 1, n |-> 3, d |-> 2],
+         [pi |-> 0, n |-> 3, d |-> 1] >>     \* an integer (rendered as a Python int)
 LinTs == << <<0, 1>>, <<100, 5>>, <<7, 1000>> >>                  \* <<first, interval>>
 LogTs == << <<0, 1, 2, 4, 8>>, <<10, 20, 40, 80, 160>>, <<0, 1, 3, 4, 5>>, <<5, 6, 8, 10, 12>> >>
-Dts == << <<1, 500>>, <<1, 4>>, <<3, 1>> >>
+Dts == << <<1, 500>>, <<1, 4>>, <<3, 1>>, <<1, 1>> >>
 
 Pick(seq, h) == seq[1 + (h % Len(seq))]
 
-\* neighbour lists: every particle lists one or all of the others; the choice is hashed per frame
-NbList(N, i, h) ==
+\* neighbour lists: every particle lists one or all of the others (N <= 3) or 1..3 of the others (N >= 4; the
+\* largest coordination number of a frame, 1 + hf % 3, differs between frames: the arrays read from the
+\* neighbour file have a different width per frame); the choice is hashed per frame and particle
+NbList(N, i, h, hf) ==
   LET others == SelectSeq([j \in 1..N |-> j], LAMBDA j : j # i) IN
   IF N = 2 THEN others
-  ELSE LET m == h % 4 IN
+  ELSE IF N = 3 THEN
+       LET m == h % 4 IN
        IF m = 0 THEN <<others[1]>> ELSE IF m = 1 THEN <<others[2]>>
        ELSE IF m = 2 THEN others ELSE <<others[2], others[1]>>
+  ELSE LET cmax == 1 + (hf % 3)
+           cn   == IF i = 1 + ((hf \div 3) % N) THEN cmax ELSE 1 + (h % cmax)
+           s    == (h \div 4) % (N - cn)
+           lst  == [j \in 1..cn |-> 1 + ((i - 1 + s + j) % N)]
+       IN  IF (h \div 64) % 2 = 1 THEN [j \in 1..cn |-> lst[cn + 1 - j]] ELSE lst
 
-MkCase(d, T, N, mi, ci, hc, hn, fam) ==
-  LET h0   == Mix4(fam + 131 * SEED, 16 * d + T, 4 * N + mi, 4 * ci + 2 * hc + hn)
+\* kind: "fam" | "tri" | "sess" | "long";  pmask: the periodic mask of a "tri" case (<< >> = hashed)
+MkCase(d, T, N, mi, ci, hc, hn, fam, kind, pmask) ==
+  LET h0   == Mix4(fam + 131 * SEED + (IF kind = "fam" THEN 0 ELSE 977 + Len(kind) + 16 * Len(pmask) + SumSeq([k \in 1..Len(pmask) |-> pmask[k] * k * k])),
+                   16 * d + T, 4 * N + mi, 4 * ci + 2 * hc + hn)
       hh(j) == Mix2(h0, j)
-      box  == IF d = 2 THEN Pick(Boxes2, hh(1)) ELSE Pick(Boxes3, hh(1))
-      alpha == Pick(StepAlpha, hh(2))
+      box  == IF kind = "tri" THEN (IF d = 2 THEN Pick(Boxes2T, hh(1)) ELSE Pick(Boxes3T, hh(1)))
+              ELSE IF d = 2 THEN Pick(Boxes2, hh(1)) ELSE Pick(Boxes3, hh(1))
+      alpha == IF kind = "tri" THEN WideAlpha
+               ELSE IF kind = "long" THEN Pick(<<StepAlpha[1], StepAlpha[2]>>, hh(2)) ELSE Pick(StepAlpha, hh(2))
       ppp0 == [k \in 1..d |-> (hh(10 + k) % 4) \div 3]                  \* mostly 0 ...
       ppp1 == [k \in 1..d |-> IF hh(10 + k) % 4 = 0 THEN 0 ELSE 1]    \* mostly 1
       pppx == IF \E k \in 1..d : ppp1[k] = 1 THEN ppp1 ELSE [k \in 1..d |-> 1]
-      ppp  == IF Modes[mi] = "x" THEN pppx ELSE IF hh(3) % 2 = 0 THEN ppp0 ELSE ppp1
+      ppp  == IF pmask # << >> THEN pmask
+              ELSE IF Modes[mi] = "x" THEN pppx ELSE IF hh(3) % 2 = 0 THEN ppp0 ELSE ppp1
       pos0 == [i \in 1..N |-> [k \in 1..d |-> Mix4(h0, 20, i, k) % box[k]]]
-      step == [f \in 1..T |-> [i \in 1..N |-> [k \in 1..d |-> alpha[1 + (Mix4(h0, 30 + f, i, k) % 4)]]]]
-      XU[f \in 1..T] == IF f = 1 THEN pos0 ELSE [i \in 1..N |-> VAdd(XU[f - 1][i], step[f][i])]
+      step(f, i, k) == alpha[1 + (Mix4(h0, 1000 + f, i, k) % Len(alpha))]
+      \* "long": a confined walk (a step that would leave |x - x0| <= 30 is reflected), so that squared
+      \* displacements times the squared denominators of a and the diameters stay below 2^31
+      XU[f \in 1..T] == IF f = 1 THEN pos0
+                        ELSE LET prev == XU[f - 1] IN
+                             [i \in 1..N |-> [k \in 1..d |->
+                                LET nx == prev[i][k] + step(f, i, k) IN
+                                IF kind = "long" /\ Abs(nx - pos0[i][k]) > 30 THEN prev[i][k] - step(f, i, k) ELSE nx]]
       xu   == [f \in 1..T |-> XU[f]]
-      \* triclinic cells (tilts of either sign) for a third of the x-only cases
-      tri  == Modes[mi] = "x" /\ hh(26) % 3 = 0
-      tl(j) == Pick(<<0 - 3, 2, 0 - 1, 1>>, hh(26 + j))
+      \* triclinic cells (tilts of either sign): always for "tri", else for a third of the x-only cases
+      tri  == kind = "tri" \/ (Modes[mi] = "x" /\ hh(26) % 3 = 0)
+      tl(j) == IF kind = "tri" THEN Pick(<<0 - 3, 2, 0 - 1, 1, 3, 0 - 2>>, hh(26 + j)) ELSE Pick(<<0 - 3, 2, 0 - 1, 1>>, hh(26 + j))
       H    == IF ~tri THEN Diag(box)
               ELSE IF d = 2 THEN << <<box[1], 0>>, <<tl(1), box[2]>> >>
               ELSE << <<box[1], 0, 0>>, <<tl(1), box[2], 0>>, <<tl(2), tl(3), box[3]>> >>
       wrapmask == IF Modes[mi] = "both" THEN [k \in 1..d |-> 1] ELSE ppp
       x    == [f \in 1..T |-> [i \in 1..N |-> WrapInto(H, xu[f][i], wrapmask)]]
       lt   == Pick(LinTs, hh(4))
+      pal  == Pick(Palettes, hh(41))
+      nt0  == IF hh(22) % 7 = 0 THEN 0 ELSE 1 + (hh(23) % (T - 1))
   IN  << [ d |-> d, T |-> T, N |-> N, S |-> 1, H |-> H, ppp |-> ppp,
            ts |-> [f \in 1..T |-> lt[1] + (f - 1) * lt[2]],
-           types |-> [i \in 1..N |-> 1 + (hh(40 + i) % 2)],
-           dia |-> Pick(DiaPairs, hh(5)), a |-> Pick(Afacs, hh(6)),
+           types |-> [i \in 1..N |-> pal[1 + (Mix4(h0, 40, i, 0) % Len(pal))]],
+           dia |-> Pick(DiaTriples, hh(5)), a |-> Pick(Afacs, hh(6)),
            cal |-> Cals[ci], mode |-> Modes[mi], xu |-> xu, x |-> x,
            hasCond |-> hc,
            cond |-> [f \in 1..T |-> [i \in 1..N |->
                       IF hc = 0 \/ i = 1 + ((f + hh(7)) % N) THEN 1 ELSE Mix4(h0, 50, f, i) % 2]],
            hasNb |-> hn,
-           nb |-> [f \in 1..T |-> [i \in 1..N |-> NbList(N, i, Mix4(h0, 60, f, i))]],
+           nb |-> [f \in 1..T |-> [i \in 1..N |-> NbList(N, i, Mix4(h0, 60, f, i), Mix2(h0, 2000 + f))]],
            nmax |-> IF hh(8) % 5 = 0 THEN 1 ELSE 30,
            q |-> Pick(Qs, hh(9)) ],
-         [ tslog |-> SubSeq(Pick(LogTs, hh(20)), 1, T), dt |-> Pick(Dts, hh(21)),
-           nt |-> IF hh(22) % 7 = 0 THEN 0 ELSE 1 + (hh(23) % (T - 1)),
+         [ tslog |-> IF T <= 5 THEN SubSeq(Pick(LogTs, hh(20)), 1, T)
+                     ELSE [f \in 1..T |-> (f - 1) * (f + 2 + (hh(20) % 3))],          \* widening intervals
+           dt |-> Pick(Dts, hh(21)),
+           nt |-> IF kind = "long" /\ T > 8 THEN 1 + (hh(23) % 9) ELSE nt0,
            toff |-> Pick(<<0 - 3, 0, 4>>, hh(24)),
            numofq |-> IF d = 3 THEN Pick(<<2, 2, 4>>, hh(25)) ELSE Pick(<<2, 4, 6>>, hh(25)),
+           kind |-> kind, variants |-> {"lin", "log", "s4"}, direct |-> FALSE,
+           order |-> hh(90), qbi |-> hh(9) + 1 + (hh(91) % (Len(Qs) - 1)),
+           render |-> [ diaOrder |-> Pick(<<"asc", "desc", "rot">>, hh(80)), diaDrop |-> hh(81) % 2,
+                        diaInt |-> hh(82) % 2, mask |-> Pick(MaskKinds, hh(83)), dtInt |-> hh(84) % 2,
+                        tsoff |-> Pick(<<0, 0, 3, 40>>, hh(85)) ],
            fam |-> fam, h |-> h0 ] >>
 
 NFam == IF Tier = "quick" THEN 2 ELSE 12
 FamInputs ==
-  { MkCase(d, T, N, mi, ci, hc, hn, fam) :
+  { MkCase(d, T, N, mi, ci, hc, hn, fam, "fam", << >>) :
       d \in {2, 3}, T \in 2..5, N \in 2..3, mi \in 1..3, ci \in 1..2, hc \in {0, 1}, hn \in {0, 1}, fam \in 1..NFam }
 
 \* exhaustive sub-scope: two particles in a 6 x 6 box, every step sequence
 ExhT == IF Tier = "quick" THEN 2 ELSE 3
+PlainRender == [diaOrder |-> "asc", diaDrop |-> 1, diaInt |-> 0, mask |-> "bool", dtInt |-> 0, tsoff |-> 0]
 ExhCase(steps, mi, ci, T) ==
   LET pos0 == << <<1, 4>>, <<5, 0>> >>
       XU[f \in 1..T] == IF f = 1 THEN pos0 ELSE [i \in 1..2 |-> VAdd(XU[f - 1][i], steps[f - 1][i])]
@@ -113,6 +172,8 @@ ExhCase(steps, mi, ci, T) ==
            hasNb |-> 0, nb |-> [f \in 1..T |-> << <<2>>, <<1>> >>], nmax |-> 30,
            q |-> [pi |-> 1, n |-> 1, d |-> 1] ],
          [ tslog |-> SubSeq(<<0, 1, 3>>, 1, T), dt |-> <<1, 4>>, nt |-> 1, toff |-> 0, numofq |-> 2,
+           kind |-> "exh", variants |-> {"lin", "log", "s4"}, direct |-> FALSE, order |-> 0, qbi |-> 1,
+           render |-> PlainRender,
            fam |-> 0, h |-> SumSeq([f \in 1..(T - 1) |-> SumSeq([i \in 1..2 |->
                                7 * (steps[f][i][1] + 2) + 3 * f * (steps[f][i][2] + 2) + i])]) ] >>
 ExhSteps == IF Tier = "quick" THEN {0 - 1, 0, 1, 2} ELSE {0 - 1, 0, 2}
@@ -121,55 +182,142 @@ ExhInputs ==
       steps \in [1..(ExhT - 1) -> [1..2 -> [1..2 -> ExhSteps]]],
       mi \in (IF Tier = "quick" THEN 1..3 ELSE 1..2), ci \in 1..2 }
 
-Inputs == IF Part = "fam" THEN FamInputs ELSE ExhInputs
+\* ---- Part "ext" ----
+WithVariants(inp, vs, direct) == << inp[1], [inp[2] EXCEPT !.variants = vs, !.direct = direct] >>
+NExt == IF Tier = "quick" THEN 1 ELSE 6
+\* constant triclinic cells, only wrapped coordinates, every non-zero periodic mask
+TriInputs ==
+  { WithVariants(MkCase(Len(pm), T, N, 2, ci, (fam + T + N + ci) % 2, hn, fam, "tri", pm), {"lin", "log"}, FALSE) :
+      pm \in {m \in ([1..2 -> {0, 1}] \cup [1..3 -> {0, 1}]) : \E k \in DOMAIN m : m[k] = 1},
+      T \in {2, 4}, N \in 2..3, ci \in 1..2, hn \in {0, 1}, fam \in 1..NExt }
+\* call histories on one object (Dynamics: variant "lin", with sq4 calls; LogDynamics: "log")
+SessInputs ==
+  { WithVariants(MkCase(d, T, N, mi, ci, 1, hn, fam, "sess", << >>), {"lin", "log"}, FALSE) :
+      d \in {2, 3}, T \in 3..4, N \in 3..4, mi \in 1..3, ci \in 1..2, hn \in {0, 1}, fam \in 1..NExt }
+\* long trajectories / many particles
+LongSpecs ==
+  << [d |-> 2, T |-> 48,  N |-> 2,   vs |-> {"lin"},              direct |-> FALSE],
+     [d |-> 3, T |-> 40,  N |-> 3,   vs |-> {"lin", "log"},       direct |-> FALSE],
+     [d |-> 2, T |-> 70,  N |-> 10,  vs |-> {"log", "s4"},        direct |-> FALSE],
+     [d |-> 2, T |-> 260, N |-> 2,   vs |-> {"lin", "log"},       direct |-> TRUE],
+     [d |-> 2, T |-> 3,   N |-> 300, vs |-> {"lin", "log", "s4"}, direct |-> FALSE],
+     [d |-> 3, T |-> 2,   N |-> 150, vs |-> {"lin", "s4"},        direct |-> FALSE] >>
+  \o (IF Tier = "quick" THEN << >>
+      ELSE << [d |-> 3, T |-> 264, N |-> 3,   vs |-> {"lin", "log"}, direct |-> TRUE],
+              [d |-> 2, T |-> 64,  N |-> 5,   vs |-> {"lin", "s4"},  direct |-> FALSE],
+              [d |-> 3, T |-> 4,   N |-> 260, vs |-> {"lin", "log", "s4"}, direct |-> FALSE] >>)
+LongInputs ==
+  { (LET sp == LongSpecs[j]  z == j + SEED + fam IN
+     WithVariants(MkCase(sp.d, sp.T, sp.N, 1 + (z % 3), 1 + ((z \div 3) % 2), z % 2, (z \div 2) % 2, fam, "long", << >>),
+                  sp.vs, sp.direct)) :
+      j \in 1..Len(LongSpecs), fam \in 1..(IF Tier = "quick" THEN 1 ELSE 3) }
+ExtInputs == TriInputs \cup SessInputs \cup LongInputs
 
+Inputs == IF Part = "fam" THEN FamInputs ELSE IF Part = "exh" THEN ExhInputs ELSE ExtInputs
+
+\* ---- call histories ----
+Tsq == IF variant = "log" THEN aux.tslog ELSE c.ts
+CallAlpha ==
+  LET qa == c.q
+      qb == Pick(Qs, aux.qbi)
+      mk(kind, obj, q, uc) == [kind |-> kind, obj |-> obj, q |-> q, useCond |-> uc,
+                               nt |-> aux.nt, numofq |-> aux.numofq, toff |-> aux.toff]
+  IN  << mk("relax", 1, qa, 0), mk("relax", 1, qb, 1), mk("s4", 1, qa, 1), mk("relax", 2, qa, 2),
+         mk("s4", 2, qa, 0), mk("relax", 2, qb, 0), mk("relax", 1, qa, 2), mk("s4", 1, qa, 0) >>
+Orders == << <<1, 2, 1, 3, 1>>, <<2, 1, 3, 2, 4, 2>>, <<1, 3, 7, 8, 1>>, <<4, 1, 5, 2, 4>>,
+             <<3, 1, 8, 6, 1, 3>>, <<2, 7, 2, 6, 5, 2>>, <<1, 4, 1, 4, 2, 1>> >>
+SesCalls ==
+  IF aux.kind # "sess" THEN << >>
+  ELSE LET ord == Pick(Orders, aux.order)
+           all == [j \in 1..Len(ord) |-> CallAlpha[ord[j]]]
+       IN  SelectSeq(all, LAMBDA cl : cl.kind = "relax" \/ (variant = "lin" /\ IsDiagonal(c.H) /\ aux.nt < c.T))
+SesInit == [i |-> 1, objs |-> <<ObjInit, ObjInit>>, results |-> << >>]
+
+Exact == aux.kind \in {"fam", "exh", "tri"}
 Init == /\ \E inp \in Inputs : /\ inp[2].h % NSHARDS = SHARD
                                /\ c = inp[1] /\ aux = inp[2]
-        /\ variant \in {"lin", "log", "s4"}
+        /\ variant \in aux.variants
         /\ variant = "s4" => aux.nt < c.T /\ IsDiagonal(c.H)      \* the S(q) routine assumes an orthogonal box
-        /\ st = StInit(c, variant, aux.nt)
-Acc == /\ ~st.done
-       /\ st' = StAcc(c, variant, st, variant # "s4")
-       /\ UNCHANGED <<c, aux, variant>>
-Next == Acc
+        /\ st = IF aux.direct THEN [StInit(c, variant, aux.nt) EXCEPT !.done = TRUE] ELSE StInit(c, variant, aux.nt)
+        /\ ses = SesInit
+Acc == /\ aux.kind # "sess" /\ ~aux.direct
+       /\ ~st.done
+       /\ st' = StAcc(c, variant, st, Exact /\ variant # "s4")
+       /\ UNCHANGED <<c, aux, variant, ses>>
+\* one call of a history: the object state and the list of results advance
+DoCall == /\ aux.kind = "sess" /\ ses.i <= Len(SesCalls)
+          /\ LET r == AlgCall(c, variant, ses.objs, SesCalls[ses.i], Tsq, aux.dt) IN
+             ses' = [i |-> ses.i + 1, objs |-> r.objs, results |-> Append(ses.results, r.result)]
+          /\ UNCHANGED <<c, aux, variant, st>>
+Next == Acc \/ DoCall
 Spec == Init /\ [][Next]_vars
 
 \* ---- clauses of C06 on the model ----
-InvCounts   == CountsPerLag(c, variant, aux.nt, st)
-InvPairs    == PairsAreDefinition(c, variant, aux.nt, st)
-InvAlgDef   == AlgorithmEqualsDefinition(c, variant, st)
-InvChi4     == Chi4NonNegative(c, variant, st)
-InvLog      == LogIsOriginZeroRestriction(c, variant, st)
+Machine     == aux.kind # "sess" /\ ~aux.direct
+InvCounts   == Machine => CountsPerLag(c, variant, aux.nt, st)
+InvPairs    == Machine => PairsAreDefinition(c, variant, aux.nt, st)
+InvAlgDef   == (Machine /\ Exact) => AlgorithmEqualsDefinition(c, variant, st)
+InvChi4     == (Machine /\ Exact) => Chi4NonNegative(c, variant, st)
+InvLog      == (Machine /\ Exact) => LogIsOriginZeroRestriction(c, variant, st)
+DirectLags(T) == SortedSeq((1..6) \cup ((T \div 2 - 2)..(T \div 2 + 1)) \cup ((T - 6)..(T - 1)))
+CaseLags    == IF aux.direct THEN DirectLags(c.T) ELSE [k \in 1..(c.T - 1) |-> k]
+InvDirect   == (aux.direct /\ variant # "s4") => DirectCounts(c, variant, CaseLags)
+\* the result of every call of a history is the definition applied to its arguments (the history is not an argument),
+\* and two calls with the same arguments have the same result
+InvSession  == (aux.kind = "sess" /\ ses.i > 1) =>
+                  /\ ses.results[ses.i - 1] = DefCall(c, variant, SesCalls[ses.i - 1], Tsq, aux.dt)
+                  /\ \A j \in 1..(ses.i - 2) : SameArgs(SesCalls[j], SesCalls[ses.i - 1]) => ses.results[j] = ses.results[ses.i - 1]
+                  /\ \A o \in 1..2 : ses.objs[o].calls = Cardinality({j \in 1..(ses.i - 1) : SesCalls[j].obj = o})
 \* input-only clauses: evaluated once per case (in the initial state of the "lin" behaviour)
-AtStart     == variant = "lin" /\ st.n = 1 /\ st.nn = 1 /\ ~st.done /\ st.counts[2] = 0
+First       == ses.i = 1 /\ (aux.direct \/ (~st.done /\ \A k \in 1..c.T : st.counts[k] = 0))
+AtStart     == variant = "lin" /\ First /\ ~aux.direct
 InvWrapped  == AtStart => WrappedEqualsUnwrapped(c)
 InvBoth     == AtStart => BothIsXu(c)
 InvSlowFast == AtStart => SlowFastPartition(c)
 InvIsf      == AtStart => IsfBounded(c)
 InvMinImage == AtStart => DiagImageIsMinImage(c)
-InvWellFormed == AtStart => /\ \A f \in 1..c.T : \A i \in 1..c.N : \A k \in 1..c.d :
+InvWellFormed == First =>   /\ \A f \in 1..c.T : \A i \in 1..c.N : \A k \in 1..c.d :
                                   FracNum(c.H, VSub(c.x[f][i], c.xu[f][i]))[k] % FracDen(c.H) = 0
                             /\ c.mode = "x" => \A f \in 1..c.T : \A i \in 1..c.N : \A k \in 1..c.d :
                                   LET fn == FracNum(c.H, c.x[f][i])[k] IN
                                   IF c.ppp[k] = 1 THEN 0 <= fn /\ fn < FracDen(c.H)
                                   ELSE fn = FracNum(c.H, c.xu[f][i])[k]
                             /\ \A f \in 1..c.T : \E i \in 1..c.N : c.cond[f][i] = 1
-                            /\ \A f \in 1..c.T : \A i \in 1..c.N : Len(c.nb[f][i]) >= 1 /\ i \notin Range(c.nb[f][i])
-EveryOriginLagPairOnce == [][NoPairTwice(st')]_vars
+                            /\ \A f \in 1..c.T : \A i \in 1..c.N :
+                                  /\ Len(c.nb[f][i]) >= 1 /\ i \notin Range(c.nb[f][i])
+                                  /\ Range(c.nb[f][i]) \subseteq 1..c.N /\ Cardinality(Range(c.nb[f][i])) = Len(c.nb[f][i])
+                            /\ \A i \in 1..c.N : c.types[i] \in 1..Len(c.dia)
+                            /\ aux.kind = "tri" => ~IsDiagonal(c.H) /\ FracDen(c.H) % 2 = 1 /\ c.mode = "x"
+                            /\ aux.kind = "long" => \A f \in 1..c.T : \A i \in 1..c.N : \A k \in 1..c.d :
+                                  Abs(c.xu[f][i][k] - c.xu[1][i][k]) <= 30
+EveryOriginLagPairOnce == [][Machine => NoPairTwice(st')]_vars
 
 \* ---- emission ----
+\* fractional displacements (after the minimum image) of at least 0.35 cell vectors: how many positive, how many negative
+NearHalf ==
+  IF aux.kind # "tri" THEN <<0, 0>>
+  ELSE LET F == { FracNum(c.H, BaseDisp(c, pr[1], pr[2], i))[k] :
+                    pr \in {p \in (0..(c.T - 1)) \X (0..(c.T - 1)) : p[1] < p[2]}, i \in 1..c.N,
+                    k \in {kk \in 1..c.d : c.ppp[kk] = 1} }
+       IN  << Cardinality({f \in F : f > 0 /\ 20 * f >= 7 * FracDen(c.H)}),
+              Cardinality({f \in F : f < 0 /\ 0 - 20 * f >= 7 * FracDen(c.H)}) >>
 TNum == 10 * aux.nt + aux.toff                    \* t = TNum / 10 * t_1; its nearest integer is nt
+Finished == IF aux.kind = "sess" THEN ses.i > Len(SesCalls) ELSE st.done
 Case ==
-  [ m |-> "Relaxation", variant |-> variant, c |-> c, dt |-> aux.dt,
-    tsq |-> IF variant = "log" THEN aux.tslog ELSE c.ts,
-    counts |-> st.counts,
-    rows |-> IF variant = "s4" THEN << >>
-             ELSE [k \in 1..(c.T - 1) |->
-                     RowT(c, variant, k, IF variant = "log" THEN aux.tslog ELSE c.ts, aux.dt)],
-    rowsX |-> IF variant = "s4" THEN << >> ELSE [k \in 1..(c.T - 1) |-> AlgRowX(st, k)],
-    smallDisp |-> WrapRelApplies(c),
+  [ m |-> "Relaxation", variant |-> variant, kind |-> aux.kind, c |-> c, dt |-> aux.dt, render |-> aux.render,
+    tsq |-> Tsq,
+    counts |-> IF aux.direct THEN << >> ELSE st.counts,
+    lags |-> IF variant = "s4" \/ aux.kind = "sess" THEN << >> ELSE CaseLags,
+    rows |-> IF variant = "s4" \/ aux.kind = "sess" THEN << >> ELSE RowsAt(c, variant, CaseLags, Tsq, aux.dt),
+    rowsX |-> IF variant = "s4" \/ ~Exact THEN << >> ELSE [k \in 1..(c.T - 1) |-> AlgRowX(st, k)],
+    smallDisp |-> IF aux.kind = "long" THEN FALSE ELSE WrapRelApplies(c),
+    nearHalf |-> NearHalf,
     s4 |-> IF variant = "s4" THEN S4Exp(c, aux.nt, aux.numofq) ELSE << >>,
     tnum |-> IF TNum < 0 THEN 0 ELSE TNum,
-    tround |-> NearestSet(IF TNum < 0 THEN 0 ELSE TNum, 10) ]
-Emit == st.done => PrintT(ToJson(Case))
+    tround |-> NearestSet(IF TNum < 0 THEN 0 ELSE TNum, 10),
+    calls |-> [j \in 1..Len(SesCalls) |->
+                 LET cc == CallCase(c, SesCalls[j]) IN
+                 [ call |-> SesCalls[j], cal |-> cc.cal, q |-> cc.q, hasCond |-> cc.hasCond, cond |-> cc.cond,
+                   result |-> ses.results[j] ]] ]
+Emit == Finished => PrintT(ToJson(Case))
 =============================================================================
